@@ -156,22 +156,27 @@ type replica struct {
 	// persistent (survive a crash)
 	ssr *memSnapshotter
 	// volatile
-	peer          raft.Peer
-	vp            raft.VPeer
-	lr            *logdb.LogReader
-	sm            *rsm.StateMachine
-	usm           *regSM
-	stopC         chan struct{}
-	applied       uint64 // node.appliedIndex
-	confirmed     uint64 // node.confirmedIndex
-	pushed        uint64 // node.pushedIndex
-	queue         []rsm.Task
-	compactTo     uint64 // snapshotState.compactLogTo
-	ssIndex       uint64 // snapshotState.index
-	stopped       bool   // self removal applied (node.requestRemoval)
-	dead          bool   // killed for good (a minority may stay down forever)
-	started       bool
-	incarnation   int
+	peer        raft.Peer
+	vp          raft.VPeer
+	lr          *logdb.LogReader
+	sm          *rsm.StateMachine
+	usm         *regSM
+	stopC       chan struct{}
+	applied     uint64 // node.appliedIndex
+	confirmed   uint64 // node.confirmedIndex
+	pushed      uint64 // node.pushedIndex
+	queue       []rsm.Task
+	compactTo   uint64 // snapshotState.compactLogTo
+	ssIndex     uint64 // snapshotState.index
+	stopped     bool   // self removal applied (node.requestRemoval)
+	dead        bool   // killed for good (a minority may stay down forever)
+	started     bool
+	incarnation int
+	// heard: voting or other members whose ReplicateResp/HeartbeatResp of term
+	// heardTerm reached this replica while it led that term, since its election or
+	// its last CheckQuorum round (independent recomputation of CheckQuorum, C18)
+	heard         map[uint64]bool
+	heardTerm     uint64
 	lastUpd       uint64 // last index handed to the user SM in this incarnation
 	taskSeen      uint64 // last index handed to the state machine in a task
 	commitChecked uint64 // commit index whose quorum justification was checked
@@ -797,7 +802,7 @@ func scriptEvent(it string) uint32 {
 	}
 	fmt.Sscanf(it[1:], "%d", &a)
 	kind := map[byte]int{'T': evTimeout, 'H': evHeartbeat, 'Q': evCheckQuorum, 'P': evPropose, 'R': evRead,
-		'S': evSnapshot, 'K': evCrash, 'A': evApply, 'J': evStartJoiner}[it[0]]
+		'S': evSnapshot, 'K': evCrash, 'A': evApply, 'J': evStartJoiner, 'M': evPartition, 'E': evHeal}[it[0]]
 	if kind == 0 {
 		panic("script: unknown item " + it)
 	}
@@ -1195,8 +1200,16 @@ func (c *cluster) deliver(m pb.Message, crashPoint int) {
 			r.ssr.images[m.Snapshot.Index] = &ssImage{ss: m.Snapshot, data: b.Bytes()}
 		}
 	}
+	wasLeader, term := r.vp.IsLeader(), r.vp.Term()
 	if crashed := c.cycle(r, func() error { return r.peer.Handle(m) }, crashPoint); crashed {
 		c.crash(r)
+		return
+	}
+	if wasLeader && m.Term == term && (m.Type == pb.ReplicateResp || m.Type == pb.HeartbeatResp) {
+		if r.heardTerm != term || r.heard == nil {
+			r.heard, r.heardTerm = map[uint64]bool{}, term
+		}
+		r.heard[m.From] = true
 	}
 }
 
@@ -1256,7 +1269,22 @@ func (c *cluster) Step(e uint32) (msg string) {
 	case evCheckQuorum:
 		r := c.byID[uint64(a)]
 		c.used.checkQuorums++
+		wasLeader, term := r.vp.IsLeader(), r.vp.Term()
+		heardVoting, voting := 1, 0
+		if wasLeader {
+			vs, _, ws := r.vp.Members()
+			voting = len(vs) + len(ws)
+			for _, id := range append(vs, ws...) {
+				if id != r.id && r.heardTerm == term && r.heard[id] {
+					heardVoting++
+				}
+			}
+		}
 		c.cycle(r, func() error { r.vp.ForceCheckQuorumTimeout(); return r.peer.Tick() }, 0)
+		if wasLeader && c.cfg.CheckQuorum && c.live(r) && r.vp.IsLeader() && r.vp.Term() == term && heardVoting < voting/2+1 {
+			c.fail("C18: leader %d (term %d) passed a CheckQuorum round although only %d of its %d voting members (itself included) had answered it since the previous round", r.id, term, heardVoting, voting)
+		}
+		r.heard = nil
 	case evLease:
 		r := c.byID[uint64(a)]
 		c.used.leases++
